@@ -4,6 +4,7 @@ import os
 import regcommon as rc
 import vlib
 
+UP_PROBE = [dict(op='Write', r='r1', u='u1', data=[1]), dict(op='UpSize', r='r1', u='u1'), dict(op='GetBlob', r='r1', c='b1'), dict(op='GetBlob', r='r1', c='b2')]
 STRICT = {'K1_DeclaredTypeGoverns': False, 'F12_PushBlobUncoded': False}
 HTTP_Q = 'http(small:1(mem));http(small:2(mem));http(mem);http(http(small:1(mem)))'
 HTTP_T = HTTP_Q + ';http(small:3(mem));http(http(mem));debug(http(debug(small:2(mem))))'
@@ -30,6 +31,8 @@ def run(ctx):
     traces.append(t)
     # registry-level scenarios (OciRegistryGen with sessions) on the direct stacks
     scen2 = rc.gen_scenarios(ctx, 20 if quick else 400)
+    # one history per (session state, operation) pair: commit / delete / commit again, resume after a refusal, ...
+    scen2 += rc.cover_scenarios(ctx, 'OciRegistryCover_up.cfg', sample=2500 if quick else None, probe=UP_PROBE)
     t = os.path.join(td, 'tlc-direct.ndjson')
     rc.run_reg(ctx, vh, t, stacks=DIRECT, scen=rc.write_scenarios(ctx, scen2, 'scen2.jsonl'))
     traces.append(t)
